@@ -19,8 +19,8 @@ func init() {
 		Technique: "accessor discipline (raw-field read census on bfe_tls.Config), value-flow of the negotiated version / cipher suite / ALPN protocol to their stores, guard census (dominance with boolean-phi expansion) on mutualVersion, checkVersionGrade, tryCipherSuite, mutualProtocol and the TLS_FALLBACK_SCSV test",
 		Meta: core.Meta{
 			Level:       "other",
-			Explanation: "Decides, on go/ssa of bfe_tls: (a) Config.MinVersion/MaxVersion/CipherSuites/CurvePreferences/Rand/Time are read only inside their defaulting accessors and Clone; (b) in readClientHello every store to Conn.vers is result #0 of mutualVersion(clientHello.vers) or of checkVersionGrade(c.vers, c.grade), both ok results are tested before any success return, serverHello.vers is c.vers read after the last such store; mutualVersion returns ok only under vers >= minVersion() and returns either maxVersion() or vers under vers <= maxVersion(); checkVersionGrade returns its argument unchanged and refuses grade A below TLS1.0 / grade A+ below TLS1.2; (c) every store to serverHandshakeState.suite is result #0 of tryCipherSuite (directly or through negotiateEquivalentCipherSuites), serverHello.cipherSuite and Conn.cipherSuite are only set to hs.suite.id, each negotiation call pairs an element of one of {clientHello.cipherSuites, config.cipherSuites()} with the other list in every preference order, passes c.vers, and tryCipherSuite returns a suite only under id == supported[i], candidate.id == id and the six capability gates (ECDHE/ECDSA/TLS1.2/ChaCha20/RC4 grade); (d) every store to serverHello.alpnProtocol is mutualProtocol's choice under !fallback from (clientHello.alpnProtocols, config/rule NextProtos), and mutualProtocol returns a non-fallback value only under s == c with both drawn from its two lists; (e) the TLS_FALLBACK_SCSV scan compares clientHello.vers with config.maxVersion() (the accessor), the `below` branch only reaches error returns, and the scan lies on every path to a success return of readClientHello. Not covered: that the handshake then completes with these parameters, key exchange, application data flow, client-side negotiation.",
-			RuleText:    "obligations = each raw read of a defaulted Config field; each Conn.vers / serverHello.vers / hs.suite / alpnProtocol store; each tryCipherSuite call (list pairing per phi edge / call site, version argument); each success return of mutualVersion, checkVersionGrade, tryCipherSuite, mutualProtocol with its required guards; the SCSV comparison, its refusal branch and each success return of readClientHello",
+			Explanation: "Decides, on go/ssa of bfe_tls: (a) Config.MinVersion/MaxVersion/CipherSuites/CurvePreferences/Rand/Time are read only inside their defaulting accessors and Clone; (b) in readClientHello every store to Conn.vers is result #0 of mutualVersion(clientHello.vers) or of checkVersionGrade(c.vers, c.grade), both ok results are tested before any success return, serverHello.vers is c.vers read after the last such store; mutualVersion returns ok only under vers >= minVersion() and returns either maxVersion() or vers under vers <= maxVersion(); checkVersionGrade returns its argument unchanged and refuses grade A below TLS1.0 / grade A+ below TLS1.2; (c) every store to serverHandshakeState.suite is result #0 of tryCipherSuite (directly or through negotiateEquivalentCipherSuites), serverHello.cipherSuite and Conn.cipherSuite are only set to hs.suite.id, each negotiation call pairs an element of one of {clientHello.cipherSuites, config.cipherSuites()} with the other list in every preference order, passes c.vers, and tryCipherSuite returns a suite only under id == supported[i], candidate.id == id and the six capability gates (ECDHE/ECDSA/TLS1.2/ChaCha20/RC4 grade); (d) every store to serverHello.alpnProtocol is mutualProtocol's choice under !fallback from (clientHello.alpnProtocols, config/rule NextProtos), and mutualProtocol returns a non-fallback value only under s == c with both drawn from its two lists; (e) the TLS_FALLBACK_SCSV scan compares clientHello.vers with config.maxVersion() (the accessor), the `below` branch only reaches error returns, and the scan lies on every path to a success return of readClientHello; (f) the list that the scan and the negotiation read is the client's offer: wherever clientHelloMsg.cipherSuites is filled element by element from received bytes (clientHelloMsg.unmarshal, convertSSLv2ClientHello for SSLv2-compatible hellos) every branch inside the filling loop that decides whether an element is written is computed from the received bytes alone (message bytes, lengths, counters, constants, pure in-module helpers over scalars) - not from the connection, its configuration or a global table, which know the negotiable suites but not the signalling values TLS_FALLBACK_SCSV / renegotiation SCSV; and the field is stored only into a message allocated in the same function or by clientHelloMsg.unmarshal into its receiver (no later rewrite of hs.clientHello.cipherSuites). Not covered: in-place edits of the list through copy() or through a helper that receives the slice value, that the handshake then completes with these parameters, key exchange, application data flow, client-side negotiation.",
+			RuleText:    "obligations = each raw read of a defaulted Config field; each Conn.vers / serverHello.vers / hs.suite / alpnProtocol store; each tryCipherSuite call (list pairing per phi edge / call site, version argument); each success return of mutualVersion, checkVersionGrade, tryCipherSuite, mutualProtocol with its required guards; the SCSV comparison, its refusal branch and each success return of readClientHello; each element-wise fill of clientHelloMsg.cipherSuites from received bytes (its controlling conditions) and each store into that field",
 			Assumptions: []string{"Config fields are not modified through reflection or unsafe", "ServerRule.Get / NextProtoConf.Get implementations return the configuration of the connection's rule"},
 		},
 		Run: runC41,
@@ -39,6 +39,9 @@ func init() {
 			{Name: "ecdhe-retry-wrong-version", File: "bfe_tls/handshake_server.go", Old: "c.tryCipherSuite(id, supportedList, c.vers, true, hs.ecdsaOk", New: "c.tryCipherSuite(id, supportedList, hs.clientHello.vers, true, hs.ecdsaOk", Expect: "suite-version"},
 			{Name: "scsv-refusal-logged-only", File: "bfe_tls/handshake_server.go", Old: "				c.sendAlert(alertInappropriateFallback)\n				return false, errors.New(\"tls: client using inppropriate protocol fallback\")\n", New: "				c.sendAlert(alertInappropriateFallback)\n", Expect: "scsv-refuse"},
 			{Name: "hello-announces-client-first-suite", File: "bfe_tls/handshake_server.go", Old: "	hs.hello.cipherSuite = hs.suite.id\n	hs.finishedHash.Write(hs.hello.marshal())\n	c.writeRecord(recordTypeHandshake, hs.hello.marshal())\n\n	var certMsg", New: "	hs.hello.cipherSuite = hs.clientHello.cipherSuites[0]\n	hs.finishedHash.Write(hs.hello.marshal())\n	c.writeRecord(recordTypeHandshake, hs.hello.marshal())\n\n	var certMsg", Expect: "suite-use"},
+			{Name: "parser-keeps-only-implemented-suites", File: "bfe_tls/handshake_messages.go", Old: "		m.cipherSuites[i] = uint16(data[2+2*i])<<8 | uint16(data[3+2*i])\n", New: "		if id := uint16(data[2+2*i])<<8 | uint16(data[3+2*i]); id == scsvRenegotiation || mutualCipherSuite(varDefaultCipherSuites, id) != nil {\n			m.cipherSuites[i] = id\n		}\n", Expect: "offer-intact|clientHelloMsg.unmarshal"},
+			{Name: "offer-filtered-before-scsv-scan", File: "bfe_tls/handshake_server.go", Old: "	// check whether chacha20-poly1305 is enabled for current connection\n	if rule != nil {\n		hs.chachaOk = rule.Chacha20\n	}\n", New: "	// check whether chacha20-poly1305 is enabled for current connection\n	if rule != nil {\n		hs.chachaOk = rule.Chacha20\n	}\n	negotiable := make([]uint16, 0, len(hs.clientHello.cipherSuites))\n	for _, id := range hs.clientHello.cipherSuites {\n		if mutualCipherSuite(c.config.cipherSuites(), id) != nil {\n			negotiable = append(negotiable, id)\n		}\n	}\n	hs.clientHello.cipherSuites = negotiable\n", Expect: "offer-writer|serverHandshakeState.readClientHello"},
+			{Name: "silent-sslv2-spec-test-rewritten", Silent: true, File: "bfe_tls/conn.go", Old: "		if cipherSpecs[i] == 0 {\n			cipher := uint16(cipherSpecs[i+1])<<8 | uint16(cipherSpecs[i+2])\n", New: "		if kind := cipherSpecs[i]; !(kind != 0) {\n			state.TlsHandshakeAcceptSslv2ClientHello.Inc(0)\n			cipher := uint16(cipherSpecs[i+2]) | uint16(cipherSpecs[i+1])<<8\n"},
 			{Name: "raw-min-version", File: "bfe_tls/common.go", Old: "	minVersion := c.minVersion()\n	maxVersion := c.maxVersion()\n", New: "	minVersion := c.MinVersion\n	maxVersion := c.maxVersion()\n", Expect: "raw-read"},
 			{Name: "silent-rename-and-log", Silent: true, File: "bfe_tls/common.go", Old: "	minVersion := c.minVersion()\n	maxVersion := c.maxVersion()\n\n	if vers < minVersion {\n		return 0, false\n	}\n	if vers > maxVersion {\n		vers = maxVersion\n	}\n	return vers, true", New: "	lo := c.minVersion()\n	hi := c.maxVersion()\n\n	if !(vers >= lo) {\n		return 0, false\n	}\n	if hi < vers {\n		return hi, true\n	}\n	return vers, true"},
 		},
@@ -57,6 +60,7 @@ func runC41(c *core.Ctx) {
 	c41TryCipherSuite(c)
 	c41ALPN(c, fns)
 	c41SCSV(c)
+	c41Offer(c, fns)
 }
 
 // (a) E8: defaulted Config fields are read only by their accessor and Clone.
@@ -928,4 +932,362 @@ func c41SCSV(c *core.Ctx) {
 			"readClientHello returns success on a path that never scans clientHello.cipherSuites for TLS_FALLBACK_SCSV: a fallback hello is accepted on this path whatever its version")
 	}
 	c.Min("scsv-on-success-path", 2)
+}
+
+// ---- (f) the offer that is scanned and negotiated on is the client's offer ----
+
+// c41WirePure: v is computed from the received bytes alone (message bytes,
+// lengths, loop counters, constants, the hello under construction), not from
+// the connection or its configuration. Calls are pure only when they are
+// builtins or in-module functions over scalars/byte slices whose bodies read
+// no global, no struct field and call nothing else.
+func c41WirePure(v ssa.Value, seen map[ssa.Value]bool, depth int) (bool, string) {
+	if v == nil {
+		return true, ""
+	}
+	if depth > 40 {
+		return false, "expression too deep"
+	}
+	if seen[v] {
+		return true, ""
+	}
+	seen[v] = true
+	all := func(vs ...ssa.Value) (bool, string) {
+		for _, x := range vs {
+			if ok, why := c41WirePure(x, seen, depth+1); !ok {
+				return false, why
+			}
+		}
+		return true, ""
+	}
+	scalarOrBytes := func(t types.Type) bool {
+		switch u := t.Underlying().(type) {
+		case *types.Basic:
+			return true
+		case *types.Slice:
+			_, ok := u.Elem().Underlying().(*types.Basic)
+			return ok
+		}
+		return false
+	}
+	switch x := v.(type) {
+	case *ssa.Const:
+		return true, ""
+	case *ssa.Parameter:
+		if scalarOrBytes(x.Type()) {
+			return true, ""
+		}
+		return false, "parameter " + x.Name() + " (" + core.TypeStr(x.Type()) + ")"
+	case *ssa.Phi:
+		return all(x.Edges...)
+	case *ssa.BinOp:
+		return all(x.X, x.Y)
+	case *ssa.Convert:
+		return all(x.X)
+	case *ssa.ChangeType:
+		return all(x.X)
+	case *ssa.Slice:
+		return all(x.X, x.Low, x.High, x.Max)
+	case *ssa.MakeSlice:
+		return all(x.Len, x.Cap)
+	case *ssa.IndexAddr:
+		return all(x.X, x.Index)
+	case *ssa.Index:
+		return all(x.X, x.Index)
+	case *ssa.Extract:
+		return all(x.Tuple)
+	case *ssa.Alloc:
+		// a local: everything stored into it (directly or into its elements / fields) must be pure
+		if x.Referrers() != nil {
+			for _, r := range *x.Referrers() {
+				if st, ok := r.(*ssa.Store); ok && st.Addr == ssa.Value(x) {
+					if ok, why := c41WirePure(st.Val, seen, depth+1); !ok {
+						return false, why
+					}
+				}
+			}
+		}
+		return true, ""
+	case *ssa.FieldAddr:
+		// the input record buffer and the hello being built are wire data
+		f := core.FieldObj(x.X, x.Field)
+		if f != nil {
+			if st := c41TypeShort(x.X.Type()); st == "block" || st == "clientHelloMsg" {
+				return true, ""
+			}
+			return false, "field " + c41TypeShort(x.X.Type()) + "." + f.Name()
+		}
+		return false, "field access"
+	case *ssa.UnOp:
+		return all(x.X)
+	case *ssa.Call:
+		key := core.CalleeKey(&x.Call)
+		if key == "builtin:len" || key == "builtin:cap" || key == "builtin:min" || key == "builtin:max" {
+			return all(x.Call.Args...)
+		}
+		if cal := x.Call.StaticCallee(); cal != nil && !x.Call.IsInvoke() && cal.Blocks != nil && core.FuncPkgRel(cal) != "" && c41PureFunc(cal, 0) {
+			return all(x.Call.Args...)
+		}
+		return false, "call of " + key
+	case *ssa.Global:
+		return false, "global " + x.Name()
+	}
+	return false, core.Render(v)
+}
+
+func c41TypeShort(t types.Type) string {
+	if p, ok := t.Underlying().(*types.Pointer); ok {
+		t = p.Elem()
+	}
+	if n, ok := t.(*types.Named); ok {
+		return n.Obj().Name()
+	}
+	return t.String()
+}
+
+// c41PureFunc: a function of scalars / byte slices whose body touches no
+// global and no struct field and calls only builtins or other such functions.
+func c41PureFunc(fn *ssa.Function, depth int) bool {
+	if depth > 1 || fn.Signature.Recv() != nil || len(fn.FreeVars) > 0 {
+		return false
+	}
+	for _, p := range fn.Params {
+		switch u := p.Type().Underlying().(type) {
+		case *types.Basic:
+		case *types.Slice:
+			if _, ok := u.Elem().Underlying().(*types.Basic); !ok {
+				return false
+			}
+		default:
+			return false
+		}
+	}
+	pure := true
+	core.Instrs(fn, func(in ssa.Instruction) {
+		switch x := in.(type) {
+		case *ssa.FieldAddr, *ssa.Field, *ssa.Lookup, *ssa.Go, *ssa.Defer, *ssa.Send, *ssa.MakeClosure:
+			pure = false
+		case ssa.CallInstruction:
+			cc := x.Common()
+			if _, isB := cc.Value.(*ssa.Builtin); isB {
+				return
+			}
+			if cal := cc.StaticCallee(); cal == nil || cc.IsInvoke() || cal.Blocks == nil || !c41PureFunc(cal, depth+1) {
+				pure = false
+			}
+		}
+		for _, op := range in.Operands(nil) {
+			if _, isG := (*op).(*ssa.Global); isG {
+				pure = false
+			}
+		}
+	})
+	return pure
+}
+
+// c41WireDecoded: v is assembled from bytes of a byte slice and constants only.
+func c41WireDecoded(v ssa.Value, depth int) bool {
+	any := false
+	var walk func(v ssa.Value, d int) bool
+	walk = func(v ssa.Value, d int) bool {
+		if d > 12 {
+			return false
+		}
+		switch x := v.(type) {
+		case *ssa.Const:
+			return true
+		case *ssa.Convert:
+			return walk(x.X, d+1)
+		case *ssa.ChangeType:
+			return walk(x.X, d+1)
+		case *ssa.BinOp:
+			return walk(x.X, d+1) && walk(x.Y, d+1)
+		case *ssa.UnOp:
+			if x.Op != token.MUL {
+				return walk(x.X, d+1)
+			}
+			if ia, ok := x.X.(*ssa.IndexAddr); ok && c45IsByteSlice(ia.X.Type()) {
+				any = true
+				return true
+			}
+		}
+		return false
+	}
+	return walk(v, depth) && any
+}
+
+// c41Offer. The TLS_FALLBACK_SCSV scan and the negotiation loops of
+// readClientHello read clientHello.cipherSuites; they decide on the client's
+// offer only if that list is the list on the wire. Two necessary conditions:
+// (1) wherever the list is filled element by element from received bytes, an
+// element may be left out (or the fill abandoned) only by tests on the received
+// bytes themselves - never by the connection's configuration, which knows the
+// negotiable suites but not the signalling values; (2) the list is written
+// only while the message is under construction (fresh allocation) or by its
+// parser.
+func c41Offer(c *core.Ctx, fns []*ssa.Function) {
+	chSuites := tlsField(c, "clientHelloMsg.cipherSuites")
+	um := tlsFunc(c, "clientHelloMsg.unmarshal")
+	if chSuites == nil || um == nil {
+		return
+	}
+	type write struct {
+		at    ssa.Instruction
+		elems []ssa.Value
+	}
+	ord := map[string]int{}
+	for _, fn := range fns {
+		var writes []write
+		short := strings.TrimPrefix(core.FuncKey(fn), tlsPkg+".")
+		for _, in := range tlsInstrs(fn) {
+			st, ok := in.(*ssa.Store)
+			if !ok {
+				continue
+			}
+			// list[i] = v
+			if ia, ok := st.Addr.(*ssa.IndexAddr); ok && tlsIsField(ia.X, chSuites) {
+				writes = append(writes, write{st, []ssa.Value{st.Val}})
+				_, base := tlsFieldOf(ia.X)
+				c41OfferWriter(c, fn, um, short, st, base, ord)
+				continue
+			}
+			f, base := tlsFieldAddrOf(st.Addr)
+			if f != chSuites {
+				continue
+			}
+			c41OfferWriter(c, fn, um, short, st, base, ord)
+			// list = append(list, v...)
+			call, ok := st.Val.(*ssa.Call)
+			if !ok || core.CalleeKey(&call.Call) != "builtin:append" || len(call.Call.Args) != 2 || !tlsIsField(call.Call.Args[0], chSuites) {
+				continue
+			}
+			w := write{at: call}
+			if sl, ok := call.Call.Args[1].(*ssa.Slice); ok {
+				if al, ok := sl.X.(*ssa.Alloc); ok && al.Referrers() != nil {
+					for _, r := range *al.Referrers() {
+						if ia, ok := r.(*ssa.IndexAddr); ok && ia.Referrers() != nil {
+							for _, r2 := range *ia.Referrers() {
+								if es, ok := r2.(*ssa.Store); ok && es.Addr == ssa.Value(ia) {
+									w.elems = append(w.elems, es.Val)
+								}
+							}
+						}
+					}
+				}
+			}
+			writes = append(writes, w)
+		}
+		if len(writes) == 0 {
+			continue
+		}
+		loops := core.Loops(fn)
+		for _, w := range writes {
+			decoded := len(w.elems) > 0
+			for _, e := range w.elems {
+				if !c41WireDecoded(e, 0) {
+					decoded = false
+				}
+			}
+			if !decoded {
+				continue // not filled from received bytes (the client composing its own offer)
+			}
+			// innermost loop around the write
+			var loop *core.Loop
+			for _, l := range loops {
+				if l.Body[w.at.Block()] && (loop == nil || len(l.Body) < len(loop.Body)) {
+					loop = l
+				}
+			}
+			if loop == nil {
+				continue
+			}
+			c.Analysed(core.FuncKey(fn))
+			ord[short+"/elem"]++
+			key := fmt.Sprintf("%s:element#%d", short, ord[short+"/elem"])
+			wb := w.at.Block()
+			// within one iteration: edges into the header end the iteration
+			reachW := func(from *ssa.BasicBlock) bool {
+				seen := map[*ssa.BasicBlock]bool{}
+				var walk func(b *ssa.BasicBlock) bool
+				walk = func(b *ssa.BasicBlock) bool {
+					if b == wb {
+						return true
+					}
+					if seen[b] || !loop.Body[b] || b == loop.Header {
+						return false
+					}
+					seen[b] = true
+					for _, s := range b.Succs {
+						if walk(s) {
+							return true
+						}
+					}
+					return false
+				}
+				return walk(from)
+			}
+			skipsW := func(from *ssa.BasicBlock) bool {
+				seen := map[*ssa.BasicBlock]bool{}
+				var walk func(b *ssa.BasicBlock) bool
+				walk = func(b *ssa.BasicBlock) bool {
+					if b == wb {
+						return false
+					}
+					if !loop.Body[b] || b == loop.Header {
+						return true // left the loop / next iteration without the write
+					}
+					if seen[b] {
+						return false
+					}
+					seen[b] = true
+					for _, s := range b.Succs {
+						if walk(s) {
+							return true
+						}
+					}
+					return false
+				}
+				return walk(from)
+			}
+			ok, why := true, ""
+			nCond := 0
+			for b := range loop.Body {
+				ifi, isIf := b.Instrs[len(b.Instrs)-1].(*ssa.If)
+				if !isIf || len(b.Succs) != 2 || b.Succs[0] == b.Succs[1] {
+					continue
+				}
+				r0, r1 := reachW(b.Succs[0]), reachW(b.Succs[1])
+				s0, s1 := skipsW(b.Succs[0]), skipsW(b.Succs[1])
+				if !((r0 && s1) || (r1 && s0)) {
+					continue
+				}
+				nCond++
+				if pure, w2 := c41WirePure(ifi.Cond, map[ssa.Value]bool{}, 0); !pure {
+					ok = false
+					why += fmt.Sprintf("condition %s at %s depends on %s; ", core.Render(ifi.Cond), c.P.Pos(ifi.Cond.Pos()), w2)
+				}
+			}
+			if len(why) > 400 {
+				why = why[:400] + "…"
+			}
+			c.Check("offer-intact", key, w.at.Pos(), ok && nCond > 0,
+				fmt.Sprintf("%s fills clientHello.cipherSuites from the received bytes, but whether an offered value is kept is not decided by the received bytes alone (%d controlling conditions): %sa value the server does not negotiate on - TLS_FALLBACK_SCSV, the renegotiation SCSV - can be dropped before readClientHello scans the list, so a downgraded hello is answered instead of refused", short, nCond, why))
+		}
+	}
+	c.Min("offer-intact", 2)
+	c.Min("offer-writer", 5)
+}
+
+// c41OfferWriter: one store into a clientHelloMsg's cipherSuites (field or element).
+func c41OfferWriter(c *core.Ctx, fn, um *ssa.Function, short string, st *ssa.Store, base ssa.Value, ord map[string]int) {
+	ord[short+"/w"]++
+	ok := false
+	switch b := base.(type) {
+	case *ssa.Alloc:
+		ok = core.SpilledParam(b) == nil // a message being composed in this function
+	case *ssa.Parameter:
+		ok = fn == um && len(fn.Params) > 0 && b == fn.Params[0] // the parser filling its receiver
+	}
+	c.Check("offer-writer", fmt.Sprintf("%s:store#%d", short, ord[short+"/w"]), st.Pos(), ok,
+		"clientHelloMsg.cipherSuites of "+core.Render(base)+" is rewritten in "+short+": the list may only be written while the message is composed (a fresh allocation in the same function) or by clientHelloMsg.unmarshal on its receiver; a later rewrite means that the TLS_FALLBACK_SCSV scan and the suite negotiation no longer see the client's offer")
 }
